@@ -105,6 +105,7 @@ func TestC06Session(t *testing.T) {
 		every := rapid.IntRange(1, 5).Draw(rt, "every")
 		maxInj := rapid.IntRange(3, 30).Draw(rt, "maxInj")
 		classes := map[string]int{}
+		early := rapid.SampledFrom([]int{0, 0, 33, 40, 100}).Draw(rt, "earlyBurst")
 		inj, inflight, strangerInj := 0, 0, 0
 		viaSocket, emptyViaSocket := 0, 0
 		rapid.SyncTest(rt, func(rt *rapid.T) {
@@ -214,6 +215,24 @@ func TestC06Session(t *testing.T) {
 					s.Fail("%s woke a blocked Read/Write (%d blocked before, %d after)", what, doneBefore, n)
 				}
 			}
+			// before the first genuine datagram has arrived: a burst of datagrams
+			// that fail the check, from the peer's address, at the dialled end (a
+			// session in that phase owes them exactly what an established one owes:
+			// nothing)
+			if early > 0 && p.Sess[0] != nil {
+				digest := p.Sess[0].VerifDigest()
+				for i := 0; i < early; i++ {
+					junk := make([]byte, 60+i%7)
+					for j := range junk {
+						junk[j] = byte(hx.Hash64(cfg.EntropySeed, i, j))
+					}
+					s.Net.Deliver(p.Addr[0].String(), p.Addr[1], junk)
+				}
+				s.Quiesce()
+				if p.Sess[0].VerifDigest() != digest {
+					s.Fail("%d datagrams failing the integrity check, delivered before the first genuine one, changed the state of the dialled session", early)
+				}
+			}
 			reads := 0
 			p.OnRead = func(r, n int, err error) {
 				reads++
@@ -244,6 +263,9 @@ func TestC06Session(t *testing.T) {
 		}
 		if viaSocket > 0 {
 			cl = append(cl, "through_the_socket_and_receive_loop")
+		}
+		if early > 0 {
+			cl = append(cl, "burst_before_the_first_genuine_datagram")
 		}
 		if emptyViaSocket > 0 {
 			cl = append(cl, "empty_datagram_through_the_socket")
